@@ -81,3 +81,37 @@ int verif_os_fcntl(int fd, int cmd, ...) {
 }
 int verif_os_dup(int fd) { return sim_os_dup(fd, 0); }
 int verif_os_fcntl64(int fd, int cmd, ...) { va_list ap; long arg; va_start(ap, cmd); arg = va_arg(ap, long); va_end(ap); if (cmd == F_DUPFD || cmd == F_DUPFD_CLOEXEC) return sim_os_dup(fd, (int)arg); return 0; }
+
+/* ---- time, sleep and process identity belong to the simulator */
+#include <time.h>
+#include <sys/time.h>
+#include <unistd.h>
+extern int sim_os_sleep(uint64_t ns);
+extern uint64_t sim_os_now_ns(void);
+extern int sim_os_getpid(void);
+int verif_os_nanosleep(const struct timespec *req, struct timespec *rem) {
+    uint64_t ns = req ? (uint64_t)req->tv_sec * 1000000000ULL + (uint64_t)req->tv_nsec : 0;
+    int r = sim_os_sleep(ns);
+    if (r != 0 && rem) { rem->tv_sec = (time_t)(ns / 2 / 1000000000ULL); rem->tv_nsec = (long)(ns / 2 % 1000000000ULL); }
+    return r;
+}
+int verif_os_clock_nanosleep(clockid_t c, int flags, const struct timespec *req, struct timespec *rem) {
+    (void)c; (void)flags;
+    return verif_os_nanosleep(req, rem) == 0 ? 0 : EINTR;
+}
+int verif_os_usleep(unsigned us) { return sim_os_sleep((uint64_t)us * 1000ULL); }
+unsigned verif_os_sleep(unsigned sec) { return sim_os_sleep((uint64_t)sec * 1000000000ULL) == 0 ? 0 : (sec + 1) / 2; }
+int verif_os_sched_yield(void) { return sim_os_sleep(0) == 0 ? 0 : 0; }
+int verif_os_clock_gettime(clockid_t c, struct timespec *ts) {
+    uint64_t n = sim_os_now_ns(); (void)c;
+    if (ts) { ts->tv_sec = (time_t)(n / 1000000000ULL); ts->tv_nsec = (long)(n % 1000000000ULL); }
+    return 0;
+}
+int verif_os_gettimeofday(struct timeval *tv, void *tz) {
+    uint64_t n = sim_os_now_ns(); (void)tz;
+    if (tv) { tv->tv_sec = (time_t)(n / 1000000000ULL); tv->tv_usec = (suseconds_t)(n % 1000000000ULL / 1000); }
+    return 0;
+}
+time_t verif_os_time(time_t *t) { time_t v = (time_t)(sim_os_now_ns() / 1000000000ULL); if (t) *t = v; return v; }
+clock_t verif_os_clock(void) { return (clock_t)(sim_os_now_ns() / 1000ULL); }
+pid_t verif_os_getpid(void) { return (pid_t)sim_os_getpid(); }
